@@ -39,6 +39,9 @@ import (
 )
 
 const SupergraphSDL = `schema { query: Query }
+directive @meta(in: MetaIn) on FIELD
+input MetaIn { tags: [String] nested: MetaNested value: String }
+input MetaNested { value: String }
 type Query { items: [Item!]! a: A b: B me: User echo(filter: Filter, n: Int): String }
 input Filter { kind: String min: Int owner: OwnerIn tags: [String] }
 input OwnerIn { id: ID }
